@@ -114,6 +114,9 @@ func (w Resolver) Resolve(id did.DID, _ *resolver.ResolveMetadata) (*did.Documen
 		return nil, nil, fmt.Errorf("did:web HTTP response read error: %w", err)
 	}
 	var document did.Document
+	if err = resolver.RejectNullKeyEntries(data); err != nil {
+		return nil, nil, fmt.Errorf("did:web JSON unmarshal error: %w", err)
+	}
 	err = document.UnmarshalJSON(data)
 	if err != nil {
 		return nil, nil, fmt.Errorf("did:web JSON unmarshal error: %w", err)
